@@ -32,6 +32,11 @@ def gen(rng, n):
         d["NCONNS"] = rng.choice([1, 2])
         if rng.chance(1, 2):
             d["RETRY"] = 1
+        if rng.chance(1, 3):
+            # resumed connection with accepted 0-RTT: the echo check applies just the same
+            d["ZERO_RTT"] = 1
+            d["NCONNS"] = 1
+            d.pop("RETRY", None)
         if rng.chance(1, 4):
             d["CID_LEN"] = rng.choice([4, 20])
         cases.append(S.case_of(d))
